@@ -12,7 +12,8 @@ EXPLANATION = ("all elaborate() bodies and what they call: cross-invocation depe
                "elaboration and read there by another statement), external stateful calls, recursion classification "
                "(structural / bounded-variant), iteration over set-typed values, who-may-call for metadata mutators, raise-type "
                "discipline against a frozen exception table, accesses to optional bus members guarded by their feature test, and "
-               "str-mapping of path-typed values before join; each rule also runs on a committed positive fixture")
+               "str-mapping of path-typed values before join, reducers without an identity (reduce / max / min / next) only over "
+               "provably non-empty collections; each rule also runs on a committed positive fixture")
 
 METADATA_MUTATORS = {"add_resource", "add_window", "align_to", "freeze", "add"}
 METADATA_RECEIVERS = ("memory_map", "event_map", "_memory_map", "_event_map")
@@ -47,6 +48,7 @@ def run(rep, idx, tier):
     rep.require("C19.5", 60)
     rep.require("C19.6", 8)
     rep.require("C19.7", 10)
+    rep.require("C19.8", 1)
     rules(rep, idx, fixture=False)
     # positive fixture: the same rules must flag the committed bad example on every run
     fx = Index(os.path.join(os.path.dirname(os.path.dirname(os.path.abspath(__file__))), "fixtures", "c19"))
@@ -54,7 +56,7 @@ def run(rep, idx, tier):
     frep = Report("C19", tier)
     rules(frep, fx, fixture=True)
     fired = {o.rule for o in frep.by_status("violated")}
-    for r in ("C19.1", "C19.2", "C19.3", "C19.4", "C19.6"):
+    for r in ("C19.1", "C19.2", "C19.3", "C19.4", "C19.6", "C19.8"):
         if r in fired:
             rep.ok(r, "sa/fixtures/c19", "positive fixture is flagged", "the rule fires on the committed bad example", nontrivial=False)
         else:
@@ -90,6 +92,169 @@ def rules(rep, idx, fixture):
         raise_types(rep, idx)
         optional_members(rep, idx, els)
     joins(rep, idx)
+    partial_reducers(rep, idx)
+
+
+# ---- C19.8 reducers without an identity over possibly-empty sequences ----------------------------------
+REGISTRY_ITERS = ("window_patterns", "windows", "resources", "all_resources", "sources", "_subs", "_intrs", "flatten",
+                  "registers", "chunks", "_registers", "_sources")
+
+
+def _parents(fn_node):
+    par = {}
+    for n in ast.walk(fn_node):
+        for ch in ast.iter_child_nodes(n):
+            par[ch] = n
+    return par
+
+
+def _ancestors(node, par):
+    out = []
+    while node in par:
+        child, node = node, par[node]
+        out.append((node, child))
+    return out
+
+
+def _flag_proves_nonempty(call, source_text, f, par):
+    """The call sits where `FLAG` is false, FLAG starts True and is cleared only inside a loop over (a sorted /
+    listed copy of) the same collection: the loop body ran, so the collection is not empty."""
+    for anc, child in _ancestors(call, par):
+        if not isinstance(anc, ast.If):
+            continue
+        t = anc.test
+        flag = None
+        if isinstance(t, ast.Name) and child in anc.orelse:
+            flag = t.id
+        elif isinstance(t, ast.UnaryOp) and isinstance(t.op, ast.Not) and isinstance(t.operand, ast.Name) and child in anc.body:
+            flag = t.operand.id
+        if flag is None:
+            continue
+        sets = [n for n in ast.walk(f.node) if isinstance(n, ast.Assign) and len(n.targets) == 1 and
+                isinstance(n.targets[0], ast.Name) and n.targets[0].id == flag]
+        trues = [s for s in sets if isinstance(s.value, ast.Constant) and s.value.value is True]
+        falses = [s for s in sets if isinstance(s.value, ast.Constant) and s.value.value is False]
+        if len(trues) != 1 or not falses or len(trues) + len(falses) != len(sets):
+            continue
+        if any(isinstance(a, (ast.For, ast.While, ast.If)) for a, _ in _ancestors(trues[0], par)):
+            continue
+        ok = True
+        for s in falses:
+            loops = [a for a, ch in _ancestors(s, par) if isinstance(a, ast.For) and ch in a.body]
+            good = False
+            for lp in loops:
+                it = lp.iter
+                txt = ast.unparse(it)
+                if txt == source_text:
+                    good = True
+                if isinstance(it, ast.Name):
+                    # alias assigned once from sorted(X, ...) / list(X) / X
+                    defs = [n for n in ast.walk(f.node) if isinstance(n, ast.Assign) and len(n.targets) == 1 and
+                            isinstance(n.targets[0], ast.Name) and n.targets[0].id == it.id]
+                    if len(defs) == 1:
+                        v = defs[0].value
+                        if ast.unparse(v) == source_text:
+                            good = True
+                        if isinstance(v, ast.Call) and isinstance(v.func, ast.Name) and v.func.id in ("sorted", "list", "tuple", "reversed") \
+                                and v.args and ast.unparse(v.args[0]) == source_text:
+                            good = True
+            ok = ok and good and s.lineno < call.lineno and trues[0].lineno < s.lineno
+        if ok:
+            return f"reached only where `{flag}` is false; `{flag}` is cleared only inside the loop over {source_text}, so that collection has an element"
+    return None
+
+
+def _local_list_emptiness(name, f, par):
+    """-> ('nonempty'|'maybe-empty'|'unknown', why) for a local list filled with append()."""
+    inits = [n for n in ast.walk(f.node) if isinstance(n, ast.Assign) and len(n.targets) == 1 and
+             isinstance(n.targets[0], ast.Name) and n.targets[0].id == name]
+    if len(inits) != 1 or not isinstance(inits[0].value, (ast.List, ast.ListComp)):
+        return "unknown", f"`{name}` is not a local list with a single initialisation"
+    init = inits[0].value
+    if isinstance(init, ast.List) and init.elts:
+        return "nonempty", f"`{name}` starts with {len(init.elts)} element(s)"
+    if isinstance(init, ast.ListComp):
+        src = ast.unparse(init.generators[0].iter)
+        if any(k in src for k in REGISTRY_ITERS):
+            return "maybe-empty", f"`{name}` is a comprehension over {src}, which is empty for a component without entries"
+        return "unknown", f"`{name}` is a comprehension over {src}"
+    apps = [n for n in ast.walk(f.node) if isinstance(n, ast.Call) and isinstance(n.func, ast.Attribute) and
+            n.func.attr in ("append", "extend", "insert") and isinstance(n.func.value, ast.Name) and n.func.value.id == name]
+    if not apps:
+        return "maybe-empty", f"`{name}` starts empty and nothing is ever appended"
+    conds = []
+    for a in apps:
+        ctx = [x for x, _ in _ancestors(a, par) if isinstance(x, (ast.For, ast.While, ast.If, ast.Try))]
+        if not ctx and a.func.attr == "append":
+            return "nonempty", f"`{name}` receives an unconditional append at line {a.lineno}"
+        conds.append(ctx)
+    witnessed = True
+    for ctx in conds:
+        w = False
+        for x in ctx:
+            if isinstance(x, ast.For) and any(k in ast.unparse(x.iter) for k in REGISTRY_ITERS):
+                w = True
+            if isinstance(x, ast.If) and ("hasattr" in ast.unparse(x.test) or "features" in ast.unparse(x.test)):
+                w = True
+        witnessed = witnessed and w
+    if witnessed:
+        return "maybe-empty", (f"every append to `{name}` is inside a loop over the component's entries or under a feature test "
+                               f"(line(s) {sorted(a.lineno for a in apps)}): a component without entries / without the feature leaves it empty")
+    return "unknown", f"appends to `{name}` are conditional (line(s) {sorted(a.lineno for a in apps)}) and the conditions are not understood"
+
+
+def partial_reducers(rep, idx):
+    """reduce(f, seq) without initial value, max()/min() of one iterable without default=, next(it) without default:
+    they raise TypeError / ValueError / StopIteration on an empty sequence -- an internal error, not a refusal."""
+    n_sites = 0
+    for f in idx.all_functions():
+        par = None
+        for n in ast.walk(f.node):
+            if not (isinstance(n, ast.Call) and isinstance(n.func, (ast.Name, ast.Attribute))):
+                continue
+            fname = n.func.id if isinstance(n.func, ast.Name) else n.func.attr
+            kws = {k.arg for k in n.keywords}
+            seq = None
+            if fname == "reduce" and len(n.args) == 2 and "initial" not in kws:
+                seq = n.args[1]
+                fails = "TypeError: reduce() of empty iterable with no initial value"
+            elif fname in ("max", "min") and isinstance(n.func, ast.Name) and len(n.args) == 1 and "default" not in kws:
+                seq = n.args[0]
+                fails = f"ValueError: {fname}() arg is an empty sequence"
+            elif fname == "next" and isinstance(n.func, ast.Name) and len(n.args) == 1:
+                seq = n.args[0]
+                fails = "StopIteration"
+            if seq is None:
+                continue
+            n_sites += 1
+            if par is None:
+                par = _parents(f.node)
+            what = f"{ast.unparse(n)[:70]}: the sequence has an element whenever this is reached"
+            verdict, why = "unknown", "the argument is not a collection the analysis can size"
+            src = seq
+            if isinstance(seq, (ast.GeneratorExp, ast.ListComp)) and len(seq.generators) == 1:
+                if seq.generators[0].ifs:
+                    src = None
+                    verdict, why = "unknown", "filtered comprehension"
+                else:
+                    src = seq.generators[0].iter
+            if src is not None:
+                if isinstance(src, (ast.List, ast.Tuple)) and src.elts and not any(isinstance(e, ast.Starred) for e in src.elts):
+                    verdict, why = "nonempty", "literal with at least one element"
+                elif isinstance(src, ast.Name):
+                    verdict, why = _local_list_emptiness(src.id, f, par)
+                if verdict != "nonempty":
+                    proof = _flag_proves_nonempty(n, ast.unparse(src), f, par)
+                    if proof:
+                        verdict, why = "nonempty", proof
+            if verdict == "nonempty":
+                rep.ok("C19.8", f.site, what, why)
+            elif verdict == "maybe-empty":
+                rep.bad("C19.8", f.site, what, f"{why}; the call then fails with {fails}", line=n.lineno)
+            else:
+                rep.unk("C19.8", f.site, what, why + f"; on an empty sequence the call fails with {fails}")
+    rep.ok("C19.8", "-", "reducers without an identity (reduce / max / min of one iterable / next) were enumerated",
+           f"{n_sites} site(s)", nontrivial=False)
 
 
 # ---- C19.1 ----------------------------------------------------------------------------------------------
